@@ -390,6 +390,49 @@ theorem timeout_closes (s s' : State) (seq : Nat) (h : step s (.peekErr seq) = s
   · simp at h; subst h; rfl
   · cases h
 
+/-- a body that cannot be read to its end (deadline in the middle of a response, truncated frame, malformed
+bytes) closes the conn — the half-read frame is never left for the next call (C11's alignment, the hinge
+of this model: `take` removes a frame whole) -/
+theorem unreadable_body_closes (s s' : State) (seq : Nat) (h : step s (.finish seq .io) = some s') :
+    s'.closed = true := by
+  simp only [step] at h
+  split at h
+  · split at h
+    · simp at h; subst h; rfl
+    · cases h
+  · cases h
+
+/-- once closed, always closed: no event re-opens the conn -/
+theorem closed_is_final (s s' : State) (e : Event) (hc : s.closed = true) (h : step s e = some s') :
+    s'.closed = true := by
+  cases e <;> simp only [step] at h
+  · split at h
+    · cases h
+    · split at h <;> (simp at h; subst h; simp [hc])
+  · split at h
+    · split at h
+      · simp at h; subst h; exact hc
+      · cases h
+    · cases h
+  · split at h
+    · split at h
+      · simp at h; subst h; exact hc
+      · cases h
+    · cases h
+  · split at h
+    · split at h
+      · simp at h; subst h; exact hc
+      · cases h
+    · cases h
+  · split at h
+    · simp at h; subst h; rfl
+    · cases h
+  · split at h
+    · split at h
+      · split at h <;> (simp at h; subst h; simp [hc])
+      · cases h
+    · cases h
+
 /-- non-vacuity: two callers, responses in the opposite order, one foreign frame; both get their own -/
 example : (run [⟨2, 20⟩, ⟨1, 10⟩] [.write 10 true 1, .write 20 true 2, .yield 1 2, .take 2, .finish 2 .ok, .take 1, .finish 1 .ok]).map
     (fun s => (s.calls 1, s.calls 2)) =
